@@ -17,6 +17,7 @@ import (
 	"github.com/modelcontextprotocol/go-sdk/verif/memhttp"
 	"github.com/modelcontextprotocol/go-sdk/verif/vt"
 	"github.com/modelcontextprotocol/go-sdk/verif/wire"
+	"golang.org/x/oauth2"
 	"pgregory.net/rapid"
 )
 
@@ -29,6 +30,10 @@ type AgreeScript struct {
 	Nodes     []Node `json:"nodes"`
 	Form      string `json:"form"`  // raw (json.RawMessage arguments) | go (map of Go values)
 	Decoy     bool   `json:"decoy"` // a second tool re-using the same header names on other properties
+	// OAuth: the client transport has an OAuthHandler (the server asks for no authorization): "nil" (no token
+	// source), "token" (a valid token), "lapsed" (the token source reports invalid_grant, e.g. an expired refresh
+	// token: documented as "skip the Authorization header and proceed with the request")
+	OAuth string `json:"oauth,omitempty"`
 }
 
 const modern = "2026-07-28"
@@ -47,7 +52,32 @@ func genAgree(rt *rapid.T) AgreeScript {
 		Decoy:     rapid.IntRange(0, 3).Draw(rt, "decoy") == 3,
 	}
 	s.Nodes = genTool(rt, true)
+	s.OAuth = rapid.SampledFrom([]string{"", "", "", "nil", "token", "lapsed", "lapsed"}).Draw(rt, "oauth")
 	return s
+}
+
+// scriptedOAuth is an auth.OAuthHandler for a server that never asks for authorization.
+type scriptedOAuth struct{ kind string }
+
+func (o scriptedOAuth) TokenSource(context.Context) (oauth2.TokenSource, error) {
+	if o.kind == "nil" {
+		return nil, nil
+	}
+	return o, nil
+}
+
+func (o scriptedOAuth) Token() (*oauth2.Token, error) {
+	if o.kind == "lapsed" {
+		return nil, &oauth2.RetrieveError{ErrorCode: "invalid_grant", ErrorDescription: "refresh token expired"}
+	}
+	return &oauth2.Token{AccessToken: "tok", TokenType: "Bearer"}, nil
+}
+
+func (o scriptedOAuth) Authorize(_ context.Context, _ *http.Request, resp *http.Response) error {
+	if resp != nil && resp.Body != nil {
+		resp.Body.Close()
+	}
+	return errors.New("scripted: this client cannot obtain an authorization")
 }
 
 // callRecord is what the server side saw.
@@ -121,6 +151,12 @@ func runAgreeInBubble(s AgreeScript) (res vt.Result) {
 		return
 	}
 	client := mcp.NewClient(&mcp.Implementation{Name: "cli", Version: "1"}, nil)
+	if s.OAuth != "" {
+		if ct, ok := link.ClientTransport.(*mcp.StreamableClientTransport); ok {
+			ct.OAuthHandler = scriptedOAuth{s.OAuth}
+			res.Class("client_oauth_handler_" + s.OAuth)
+		}
+	}
 
 	var args any
 	if s.Form == "go" {
